@@ -324,21 +324,26 @@ def mirror(ck, fb):
                 raise AnalysisBroken("C08: %s: the iterator does not start at begin(): %s" % (name, cont))
             C = cont[:-len(".begin()")]
             step = wrap = False
+            # comparisons are printed with sorted operands (before IT is substituted): accept either order
+            at_norm = lambda a_, b_, op_: {"(%s%s%s)" % (a_, op_, b_), "(%s%s%s)" % (b_, op_, a_)}
+
+            has_ne = lambda at_, a_, b_, pol_: any((alt, pol_) in at_ for alt in at_norm(a_, b_, "!="))
+
             for b, x in pos:
                 s_ = canon(x.get("x"))
                 at = {(canon(c), pol) for c, pol, e in f.facts(b) if isinstance(pol, bool)}
                 if fwd:
-                    if s_ == "*(IT+1)" and ("((IT+1)!=%s.end())" % C, True) in at:
+                    if s_ == "*(IT+1)" and has_ne(at, "(IT+1)", "%s.end()" % C, True):
                         step = True
-                    if s_ == "*%s.begin()" % C and ("((IT+1)!=%s.end())" % C, False) in at:
+                    if s_ == "*%s.begin()" % C and has_ne(at, "(IT+1)", "%s.end()" % C, False):
                         wrap = True
                 else:
-                    if s_ == "*(IT-1)" and ("(IT!=%s.begin())" % C, True) in at:
+                    if s_ == "*(IT-1)" and has_ne(at, "IT", "%s.begin()" % C, True):
                         step = True
-                    if s_ == "*(%s.end()-1)" % C and ("(IT!=%s.begin())" % C, False) in at:
+                    if s_ == "*(%s.end()-1)" % C and has_ne(at, "IT", "%s.begin()" % C, False):
                         wrap = True
             verdict = step and wrap and C == "halfface(P1).halfedges()"
-            matched = all(any(canon(c) == "(*IT==P0)" and pol is True for c, pol, e in f.facts(b)) for b, x in pos)
+            matched = all(any(canon(c) in ("(*IT==P0)", "(P0==*IT)") and pol is True for c, pol, e in f.facts(b)) for b, x in pos)
             verdict = verdict and matched
             texts = [canon(x.get("x")) for b, x in pos] + ["over " + C]
         (ck.ok if verdict else lambda r, w, t: ck.violate(r, w, t, "C08.step:%s" % name))("C08.step", f.where, "%s steps by %s with wrap-around (%s)" % (name, "+1" if fwd else "-1", texts))
